@@ -11,6 +11,7 @@ import Wharf.Model.Bsdiff
 import Wharf.Model.Lru
 import Wharf.Model.Patch
 import Wharf.Model.Rediff
+import Wharf.Model.Wire
 
 open Wharf Wharf.Util
 
@@ -334,6 +335,30 @@ def doHashInfo (args : List String) : IO String := do
     | .panic p => return s!"panic {p}"
   | _ => return "bad-op"
 
+/-- `c13 <body lengths csv>`: reader offsets after each frame -/
+def doC13 (args : List String) : IO String := do
+  match args with
+  | [lensS] =>
+    let lens := csvNats lensS
+    let rec go : List Nat → Nat → List String → List String
+      | [], _, acc => acc.reverse
+      | l :: ls, off, acc =>
+        let off' := off + (Wire.uvarint l).length + l
+        go ls off' (toString off' :: acc)
+    return ",".intercalate (go lens 0 [])
+  | _ => return "bad-op"
+
+/-- `c13parse <stream tok>`: parse frames; `len fnv;...` or `err` -/
+def doC13Parse (args : List String) : IO String := do
+  match args with
+  | [tok] =>
+    let s := (← readContent tok).toList
+    match Wire.parseFrames (s.length + 2) s with
+    | .ok bodies => return "ok " ++ ";".intercalate (bodies.map fun b => s!"{b.length} {fnvList b}")
+    | .err _ => return "err"
+    | .panic p => return s!"panic {p}"
+  | _ => return "bad-op"
+
 def dispatch (line : String) : IO String := do
   match line.trimAscii.toString.splitOn " " with
   | "c11" :: args => doC11 args
@@ -343,6 +368,8 @@ def dispatch (line : String) : IO String := do
   | "diffbuild" :: args => doDiffBuild args
   | "patch" :: args => doPatch args
   | "hashinfo" :: args => doHashInfo args
+  | "c13" :: args => doC13 args
+  | "c13parse" :: args => doC13Parse args
   | "analyze" :: args => doAnalyze args
   | "optimize" :: args => doOptimize args
   | "lru" :: args => doLru args
